@@ -96,6 +96,18 @@ def history_stage(res, envdesc, cases, prop, rng=None, limit=250, jobs=8):
                 except Exception:  # noqa: BLE001
                     pass
             again = real.observe_stream(compiled, live)
+            if deep is not None and int(envdesc["maxDepth"]) <= 200:
+                # after an application that ended in the recursion error: a value nested EXACTLY as deep as the limit allows
+                # is still within the limit (whatever the traversal counts, it counts per application)
+                edge = 0
+                for _ in range(int(envdesc["maxDepth"])):
+                    edge = [edge]
+                rl_edge = real.observe_stream(compiled, edge)
+                if rl_edge.endswith("err JSONPathRecursionError"):
+                    res.violations.append({"property": prop, "query": q, "document": f"[[...[0]...]] nested {envdesc['maxDepth']} deep (the limit)", "env": envdesc,
+                                           "observed": "JSONPathRecursionError", "expected": "a result",
+                                           "history": "compile once; find; find on a value nested beyond the limit (raises); find on a value nested exactly at the limit",
+                                           "what": "after an application that raised, a value within the limit raises JSONPathRecursionError"})
         except RecursionError:
             continue
         res.evaluations += 1
